@@ -39,6 +39,39 @@ def run(sc):
                 for p_ in ([pid] + (['C04'] if opt == 'max_async_tasks' else [])):
                     pr.append(f"{p_}: `taskiq worker {' '.join(argv[1:])}` builds its receiver with {opt}={got.get(opt, '<missing>')!r}, the command line says {v!r}")
         if pr: fails.append({'key': ' '.join(argv[1:]), 'failed_clauses': pr})
+    # the programmatic worker (taskiq.api.run_receiver_task) and the in-memory broker build receivers from options of their own
+    import taskiq.api.receiver as api_mod, inspect
+    from taskiq.receiver import Receiver as _R
+    DEFAULT = {k: v.default for k, v in inspect.signature(_R.__init__).parameters.items()}          # an option that is not passed on takes the receiver's own default
+    async def via_api(kw):
+        got = {}
+        class Rec:
+            def __init__(self, **k): got.update(k)
+            async def listen(self, ev=None): raise asyncio.CancelledError()
+        try: await api_mod.run_receiver_task(InMemoryBroker(), receiver_cls=Rec, **kw)
+        except asyncio.CancelledError: pass
+        return got
+    for A, P, prop, val, ack in itertools.product((1, 4), (0, 3), (True, False), (True, False), (None, AcknowledgeType.WHEN_EXECUTED)):
+        n += 1; kw = dict(max_async_tasks=A, max_prefetch=P, propagate_exceptions=prop, validate_params=val, ack_time=ack)
+        try: got = asyncio.run(via_api(kw))
+        except BaseException as ex:
+            fails.append({'key': f"run_receiver_task {kw}", 'failed_clauses': [f"C04: run_receiver_task failed with {type(ex).__name__}: {str(ex)[:100]}"]}); continue
+        want = {'max_async_tasks': (A, ['C03', 'C04']), 'max_prefetch': (P, ['C04']), 'propagate_exceptions': (prop, ['C12']), 'validate_params': (val, ['C08']), 'ack_type': (ack, ['C02'])}
+        pr = [f"{p_}: run_receiver_task({', '.join(f'{k}={v!r}' for k, v in kw.items())}) builds its receiver with {opt}={got.get(opt, '<not passed: the receiver default applies>')!r}"
+              for opt, (v, ps) in want.items() if got.get(opt, DEFAULT.get(opt)) != v for p_ in ps]
+        if pr: fails.append({'key': f"run_receiver_task {kw}", 'failed_clauses': pr})
+    import taskiq.brokers.inmemory_broker as imb
+    for A, prop, cast in itertools.product((1, 4), (True, False), (True, False)):
+        n += 1; got = {}
+        class Rec2:
+            def __init__(self, **k): got.update(k)
+        orig = imb.Receiver; imb.Receiver = Rec2
+        try: imb.InMemoryBroker(max_async_tasks=A, propagate_exceptions=prop, cast_types=cast)
+        finally: imb.Receiver = orig
+        want = {'max_async_tasks': (A, ['C03', 'C04']), 'propagate_exceptions': (prop, ['C12']), 'validate_params': (cast, ['C08'])}
+        pr = [f"{p_}: InMemoryBroker(max_async_tasks={A}, propagate_exceptions={prop}, cast_types={cast}) builds its receiver with {opt}={got.get(opt, '<not passed: the receiver default applies>')!r}"
+              for opt, (v, ps) in want.items() if got.get(opt, DEFAULT.get(opt)) != v for p_ in ps]
+        if pr: fails.append({'key': f"InMemoryBroker A={A} propagate={prop} cast={cast}", 'failed_clauses': pr})
     return {'reproduced': bool(fails), 'runs': n, 'n_failures': len(fails), 'failures': fails[:400], 'bound': '3 x 2 x 2 x 2 x 3 x 2 x 2 command lines through WorkerArgs.from_cli and start_listen with a recording receiver'}
 
 if __name__ == '__main__':
